@@ -484,6 +484,36 @@ theorem reach_disc {I : Inst α} (hI : WF I) {H : Nat → α} {source : Nat} {ta
           exact Or.inr ⟨b.edge, (hd.tree.entry _ b hb).1⟩
       · exact hkeys x hx
 
+/-- once closed, a vertex stays closed for the rest of the run, keeps its label and its tree entry
+(they are final), and is never expanded again -/
+theorem closed_final {I : Inst α} (hI : WF I) {H : Nat → α} {source : Nat} {target : Option Nat}
+    (hH : Heur I target.isSome H) {pre : List Nat} {s h : SState α}
+    (hr : Reach I source target pre s h) (hd : Disc I H source s) {x : Nat} (hx : Closed s x) :
+    Closed h x ∧ h.g x = s.g x ∧ h.sol x = s.sol x ∧ x ∉ pre := by
+  obtain ⟨_, hk, _, hnot, _, _⟩ := reach_disc hI hH hr hd
+  obtain ⟨h1, h2, h3⟩ := hk x hx
+  exact ⟨h1, h2, h3, fun hmem => hnot x hmem hx⟩
+
+/-- (M) for Dijkstra, in plain terms: a closed label is at most every queued f-score, and a queued
+f-score is the label of its vertex -/
+theorem Disc.dijkstra_monotone {I : Inst α} {source : Nat} {s : SState α}
+    (hd : Disc I (fun _ => 0) source s) {u : Nat} {gu : α} (hgu : s.g u = some gu)
+    (hu : NotQueued s u) {p : Nat × α} (hp : p ∈ s.queue) : gu ≤ p.2 ∧ s.g p.1 = some p.2 := by
+  have h1 := hd.mono u gu hgu hu p hp
+  obtain ⟨gx, h2, h3⟩ := hd.qg p hp
+  simp only [add_zero] at h1 h3
+  exact ⟨h1, by rw [h3]; exact h2⟩
+
+/-- (M) for Dijkstra at the pop: the popped vertex's label is at least every closed label and at
+most every queued f-score -/
+theorem Disc.dijkstra_pop {I : Inst α} {source : Nat} {s : SState α}
+    (hd : Disc I (fun _ => 0) source s) {v : Nat} (hpop : popOk s.queue v = true) :
+    ∃ gv, s.g v = some gv ∧ (v, gv) ∈ s.queue ∧ (∀ p ∈ s.queue, gv ≤ p.2) ∧
+      ∀ x gx, s.g x = some gx → NotQueued s x → gx ≤ gv := by
+  obtain ⟨gv, h1, h2, h3, h4⟩ := popped_ge_closed hd hpop
+  simp only [add_zero] at h1 h3 h4
+  exact ⟨gv, h2, h1, h3, h4⟩
+
 /-- the discipline holds before the loop (the source is queued with f-score `0 + H source`) -/
 theorem initState_disc (I : Inst α) (H : Nat → α) (source : Nat) :
     Disc I H source (initState source (H source)) where
